@@ -84,9 +84,9 @@ impl PtProp {
         }
     }
 
-    fn explore_cfg(&self, ctx: &mut Ctx, cfg: &LocoCfg, letters: &[Letter], first: usize, full_d: usize, dev: (usize, usize), star: bool) {
+    fn explore_cfg(&self, ctx: &mut Ctx, cfg: &LocoCfg, letters: &[Letter], first: usize, full_d: usize, dev: (usize, usize), star: bool, no_assert: bool) {
         let which = self.which;
-        let root_loco = build_loco(cfg);
+        let root_loco = build_case_loco(cfg, no_assert);
         let root = Node { snap: snap(&root_loco), loco: root_loco };
         ctx.state();
         let mut leaf_count = 0u64;
@@ -105,7 +105,7 @@ impl PtProp {
                 ctx.transition();
                 ctx.depth(path.len() as u64);
                 if info.panicked {
-                    let case = LocoCase { cfg: *cfg, path: path.iter().map(|&i| letters[i]).collect() };
+                    let case = LocoCase { cfg: *cfg, path: path.iter().map(|&i| letters[i]).collect(), no_assert };
                     ctx.violation(&format!("panic@step:{}", if parent.snap.is_hyb { "hyb" } else if parent.snap.is_conv { "conv" } else { "bel" }), format!("panic: {}", info.err), serde_json::to_value(&case).unwrap(), path.len() as u64);
                     return None;
                 }
@@ -127,7 +127,7 @@ impl PtProp {
                         ctx.count_violation_only(k);
                     }
                 } else if !fails.is_empty() {
-                    let case = LocoCase { cfg: *cfg, path: path.iter().map(|&i| letters[i]).collect() };
+                    let case = LocoCase { cfg: *cfg, path: path.iter().map(|&i| letters[i]).collect(), no_assert };
                     let cv = serde_json::to_value(&case).unwrap();
                     for (k, w) in fails {
                         if ctx.wants_violation(&k, path.len() as u64) {
@@ -140,7 +140,7 @@ impl PtProp {
                 // binding to the real loop on every 64th accepted leaf-ish node
                 leaf_count += 1;
                 if leaf_count % 257 == 0 {
-                    let case = LocoCase { cfg: *cfg, path: path.iter().map(|&i| letters[i]).collect() };
+                    let case = LocoCase { cfg: *cfg, path: path.iter().map(|&i| letters[i]).collect(), no_assert };
                     let (fl, steps) = run_case(&case);
                     if steps.iter().all(|x| x.0.accepted) {
                         match validate_against_walk(&case, &fl, &steps) {
@@ -173,7 +173,7 @@ impl Prop for PtProp {
         let (d, l, k) = self.bounds(tier);
         let consist_part = if self.which == "C01" || self.which == "C09" { format!(" PLUS consists: {}", super::consist_lab::rule(self.which, tier)) } else { String::new() };
         format!(
-            "E-SEQ on real Locomotive objects driven like LocomotiveSimulation::solve_step: alphabet = {} letters (14 demands relative to the limits just published: {:?}; dt in {:?} (20 s for C01 only){}), every sequence of length <= {} (FULL), every sequence of length {} departing from the default letter (0.6M, dt=1, engine on) in <= 1 position (DEV(L,1)) on every powertrain configuration of the {} PT family (conventional + battery-electric; C08 also hybrid units), and every sequence of length {} with <= 2 departures (DEV(L,2)) on the star-design configurations. Oracle on every accepted step (= every prefix of every history). distinct_nontrivial = number of distinct behaviour signatures (unit type x traction/regen/dyn-brake/zero x which transient bound is active x which limit binds x engine command x dt, and rejected-letter x error kind).{}",
+            "E-SEQ on real Locomotive objects driven like LocomotiveSimulation::solve_step: alphabet = {} letters (14 demands relative to the limits just published: {:?}; dt in {:?} (20 s for C01 only){}), every sequence of length <= {} (FULL), every sequence of length {} departing from the default letter (0.6M, dt=1, engine on) in <= 1 position (DEV(L,1)) on every powertrain configuration of the {} PT family (conventional + battery-electric; C08 also hybrid units), and every sequence of length {} with <= 2 departures (DEV(L,2)) on the star-design configurations; C01 repeats FULL and DEV(L,1) on the star-design configurations with the public option assert_limits = false. Oracle on every accepted step (= every prefix of every history). distinct_nontrivial = number of distinct behaviour signatures (unit type x traction/regen/dyn-brake/zero x which transient bound is active x which limit binds x engine command x dt, and rejected-letter x error kind).{}",
             letters_for(self.which).len(),
             DEMANDS,
             DTS,
@@ -225,9 +225,23 @@ impl Prop for PtProp {
                 if first == 0 {
                     ctx.sample(|| serde_json::json!({"config": cfg, "first_letter": letters[first], "explored": format!("FULL({full_d}), DEV({dev_l},1) and (star configs) DEV({dev_k},2) below it")}));
                 }
-                self.explore_cfg(ctx, cfg, &letters, first, full_d, (dev_l, dev_k), star);
+                self.explore_cfg(ctx, cfg, &letters, first, full_d, (dev_l, dev_k), star, false);
                 if ctx.out_of_time() {
                     break;
+                }
+            }
+        }
+        // C01: the same exploration with the public option assert_limits = false on the star-design configurations
+        if self.which == "C01" {
+            for cfg in &star_cfgs {
+                for first in 0..letters.len() {
+                    if !ctx.claim() {
+                        continue;
+                    }
+                    self.explore_cfg(ctx, cfg, &letters, first, full_d, (dev_l, dev_k), false, true);
+                    if ctx.out_of_time() {
+                        break;
+                    }
                 }
             }
         }
